@@ -52,7 +52,11 @@ func VerifLifecycleStop() {
 		emitted, acked := len(w.src.emitted), len(w.src.acks)
 		stored := w.storedIdxLocked()
 		w.mu.Unlock()
-		verifAssert(acked == emitted, "c06-read-record-left-without-outcome")
+		// every record that reached a destination or the DLQ has its outcome and was
+		// acknowledged to the source (a record read but not yet handed on when the
+		// stop arrived may be dropped: it is read again after the restart)
+		w.checkDrained()
+		verifAssert(acked <= emitted, "c06-acknowledged-more-than-read")
 		verifAssert(stored == acked-1, "c06-stored-position-not-last-ack")
 		verifAssert(w.lastStatus() == pipeline.StatusUserStopped, "c11-status-after-graceful-stop")
 		w.checkReleased("c06")
@@ -76,9 +80,7 @@ func VerifLifecycleStop() {
 		verifAssert(reopen == acked-1, "c03-reopened-with-wrong-position")
 		err2 := svc.StopAndWait(ctx, "pl")
 		if err2 == nil {
-			w.mu.Lock()
-			verifAssert(len(w.src.acks) == len(w.src.emitted) || len(w.src.acks) == w.K, "c06-second-run-not-drained")
-			w.mu.Unlock()
+			w.checkDrained()
 			w.checkReleased("c06")
 			verifCover("restarted")
 		}
@@ -321,5 +323,24 @@ func VerifLifecycleUserStopVsFailure() {
 	}
 	if st := w.lastStatus(); st == pipeline.StatusRunning || st == pipeline.StatusRecovering {
 		_ = svc.StopAndWait(ctx, "pl")
+	}
+}
+
+// checkDrained is the C06 oracle after a stop-and-wait that returned nil: every
+// record that reached a destination or the DLQ has its final outcome and was
+// acknowledged to the source; a record read but not yet handed on when the stop
+// arrived may have been dropped (it is read again after a restart).
+func (w *lWorld) checkDrained() {
+	w.mu.Lock()
+	defer w.mu.Unlock()
+	ackedSet := map[int]bool{}
+	for _, i := range w.src.acks {
+		ackedSet[i] = true
+	}
+	for _, d := range w.dests {
+		for _, i := range d.written {
+			verifAssert(ackedSet[i], "c06-read-record-left-without-outcome")
+			verifAssert(w.handledLocked(i), "c06-read-record-left-without-outcome")
+		}
 	}
 }
